@@ -244,7 +244,13 @@ func (s *CallableStepSchema[StepData, InputType]) CallSignal(
 	signalID string,
 	input any,
 ) error {
+	signalHandler, ok := s.SignalHandlersValue[signalID]
+	if !ok {
+		return BadArgumentError{
+			Message: fmt.Sprintf("Invalid signal called: %s (step %s)", signalID, s.IDValue),
+		}
+	}
 	runningStepData := s.setupStepData(runID)
 	runningStepData.startedWG.Wait() // Wait for the step to start
-	return s.SignalHandlersValue[signalID].Call(ctx, runningStepData.initializedData, input)
+	return signalHandler.Call(ctx, runningStepData.initializedData, input)
 }
